@@ -24,7 +24,7 @@ from props import _reduce_util as U
 PROP = "C22"
 READY = True
 DRIVER = "dm_reduce"
-LEAN_MODULES = ["DaskModel.Props.C22"]
+LEAN_MODULES = ["DaskModel.Props.C22", "DaskModel.Lemmas.TreeReduce", "DaskModel.Lemmas.BlockScan"]
 CASE_TIMEOUT_S = 20
 LEVEL_TEXT = (
     "Proved in Lean 4 (no size bound): K1 treeReduce_eq_fold — for every block list, every group size k "
@@ -34,8 +34,8 @@ LEVEL_TEXT = (
     "first-occurrence argmin/argmax as (value, flat index) and top-k; hence independence of split_every. "
     "K2: sequential cumreduction equals the global scan for every chunking including zero-length blocks "
     "(seqScan_eq_scan); the Blelloch up/down sweep computes every block prefix for any schedule accepted by the "
-    "proved interval checker (blelloch_sound), and dask's schedule is accepted for every n_vals ≤ 64 by kernel "
-    "evaluation (schedOk_le_64) — general n is validated (all n ≤ 300 in the thorough tier), i.e. partial. "
+    "proved interval checker (blelloch_sound), and dask's schedule is accepted for every n_vals ≤ 32 by kernel "
+    "evaluation (schedOk_le_32) — general n is validated (all n ≤ 300 in the thorough tier), i.e. partial. "
     "Validated, not proved: float summation order (tolerance), var/std/moment (Chan merge) and nan-variants, "
     "median/quantile glue, multi-axis value-level equality (the n-d plan is diffed against the real graph and "
     "executed by the driver on integer data)."
@@ -394,8 +394,10 @@ def case_arg(ctx, inp):
         return
     if got[0] == "raised":
         sig = None
-        if empty_chunk and "empty sequence" in got[1]:
-            sig = "arg:zero-length-chunk:ValueError"
+        red_empty = any(0 in chunks[i] for i in norm_axes(axis, a.ndim))
+        if red_empty and got[1].startswith("ValueError") and ("zero-size" in got[1] or "empty sequence" in got[1]):
+            sig = "arg:zero-length-chunk-on-reduced-axis:ValueError"
+            ctx.branch("known: arg zero-length chunk")
         ctx.fail(f"{op}: dask raised but NumPy returns a value: {got[1]}", sig=sig, observed=got[1], expected=np.asarray(exp[1]).tolist())
         return
     if not U.same_values(got[1], exp[1], True):
@@ -625,7 +627,7 @@ def gen_arg(ctx, n):
     rng = ctx.rng
     for _ in range(n):
         shape = U.rand_shape(rng, 3, 5)
-        chunks = U.rand_chunks(rng, shape, zero_p=0.0)
+        chunks = U.rand_chunks(rng, shape, zero_p=0.04)
         axis = rng.choice([None] + list(range(len(shape))))
         op = rng.choice(["argmin", "argmax", "argmin", "argmax", "nanargmin", "nanargmax"])
         kind = rng.choice(["int", "int", "float", "nan"]) if op.startswith("arg") else rng.choice(["nan", "float"])
@@ -734,14 +736,14 @@ def generate(ctx):
         pts = [p for p in pts if p[0] <= 300] + ctx.rng.sample([p for p in pts if p[0] > 300], 12)
     for n, k in pts:
         yield "depth", {"n": n, "k": k}
-    yield from gen_plan(ctx, ctx.n(250, 2500))
+    yield from gen_plan(ctx, ctx.n(200, 2500))
     # API level
     yield from _exhaustive_small(ctx)
-    yield from gen_reduce(ctx, ctx.n(450, 5000))
-    yield from gen_arg(ctx, ctx.n(150, 1500))
-    yield from gen_cum(ctx, ctx.n(150, 1500))
-    yield from gen_topk(ctx, ctx.n(120, 1200))
-    yield from gen_quant(ctx, ctx.n(60, 600))
+    yield from gen_reduce(ctx, ctx.n(300, 5000))
+    yield from gen_arg(ctx, ctx.n(110, 1500))
+    yield from gen_cum(ctx, ctx.n(110, 1500))
+    yield from gen_topk(ctx, ctx.n(90, 1200))
+    yield from gen_quant(ctx, ctx.n(40, 600))
 
 
 def search(ctx):
